@@ -1,41 +1,455 @@
+// C02 harness: identity propagation, end to end.
+//
+// Every case is one HTTP request sent as raw bytes to an in-process gateway made of the REAL handler chain
+// (buildProxyHandlerChainFunc), the REAL dispatcher and the REAL per-endpoint transport (gateway.go); an httptest
+// upstream records the identity bearing headers it receives. The Lean model (KG.Model.Identity.serve) predicts the
+// outcome and the received headers (diff), and the Lean judge (KG.Spec.Identity.judge) is evaluated on what the
+// upstream really received (judge).
 package main
 
 import (
+	"encoding/json"
 	"flag"
 	"fmt"
 	"io"
+	"os"
+	"path/filepath"
+	"sort"
+	"strings"
 
 	"k8s.io/apiserver/pkg/authentication/user"
 	"k8s.io/klog"
+
+	"verifharness/rig"
 )
+
+// ---- case (all byte strings hex) -------------------------------------------------------------
+
+type Extra struct {
+	K string   `json:"k"`
+	V []string `json:"v"`
+}
+type Ident struct {
+	Name   string   `json:"name"`
+	Groups []string `json:"groups"`
+	Extra  []Extra  `json:"extra"`
+}
+type Line struct {
+	N string `json:"n"`
+	V string `json:"v"`
+}
+type Deny struct {
+	Res  string `json:"res"`
+	Sub  string `json:"sub"`
+	Ns   string `json:"ns"`
+	Name string `json:"name"`
+	D    string `json:"d"` // deny | noopinion | error
+}
+type Case struct {
+	Token    string    `json:"token"`
+	User     *Ident    `json:"user"` // nil: the authenticator does not recognise the client
+	Client   []Line    `json:"client"`
+	Deny     []Deny    `json:"deny"`
+	Upgrade  bool      `json:"upgrade"`
+	Observed *ObsWire  `json:"observed,omitempty"`
+}
+type ObsWire struct {
+	Upstream [][]Line `json:"upstream"`
+}
+
+type modelOut struct {
+	Outcome string `json:"outcome"`
+	Recv    []Line `json:"recv"`
+	CtxUser *Ident `json:"ctxUser"`
+	Calls   []Deny `json:"calls"`
+	Expect  struct {
+		Kind      string `json:"kind"`
+		Status    int    `json:"status"`
+		ID        *Ident `json:"id"`
+		KeysLower bool   `json:"keysLower"`
+		Carried   bool   `json:"carried"`
+	} `json:"expect"`
+	ImpRequested bool     `json:"impRequested"`
+	JudgeModel   []string `json:"judgeModel"`
+	JudgeImpl    []string `json:"judgeImpl"`
+}
+
+func unhexAll(l []string) []string {
+	r := make([]string, len(l))
+	for i, s := range l {
+		r[i] = rig.UnHex(s)
+	}
+	return r
+}
+
+func (id *Ident) info() *user.DefaultInfo {
+	if id == nil {
+		return nil
+	}
+	u := &user.DefaultInfo{Name: rig.UnHex(id.Name), Groups: unhexAll(id.Groups)}
+	if len(id.Extra) > 0 {
+		u.Extra = map[string][]string{}
+		for _, e := range id.Extra {
+			k := rig.UnHex(e.K)
+			u.Extra[k] = append(u.Extra[k], unhexAll(e.V)...)
+		}
+	}
+	return u
+}
+
+func (id *Ident) readable() string {
+	if id == nil {
+		return "<unauthenticated>"
+	}
+	var ex []string
+	for _, e := range id.Extra {
+		ex = append(ex, fmt.Sprintf("%q=%q", rig.UnHex(e.K), unhexAll(e.V)))
+	}
+	return fmt.Sprintf("{name %q groups %q extra [%s]}", rig.UnHex(id.Name), unhexAll(id.Groups), strings.Join(ex, " "))
+}
+
+func (cs Case) readable() string {
+	var ls []string
+	for _, l := range cs.Client {
+		ls = append(ls, fmt.Sprintf("%q", rig.UnHex(l.N)+": "+rig.UnHex(l.V)))
+	}
+	var dn []string
+	for _, d := range cs.Deny {
+		dn = append(dn, fmt.Sprintf("%s %s/%q ns=%q name=%q", d.D, d.Res, rig.UnHex(d.Sub), rig.UnHex(d.Ns), rig.UnHex(d.Name)))
+	}
+	return fmt.Sprintf("authenticated as %s; client headers [%s]; authorizer refuses [%s]; upgrade=%v", cs.User.readable(), strings.Join(ls, ", "), strings.Join(dn, "; "), cs.Upgrade)
+}
+
+func readableLines(ls []Line) string {
+	var out []string
+	for _, l := range ls {
+		out = append(out, fmt.Sprintf("%q", rig.UnHex(l.N)+": "+rig.UnHex(l.V)))
+	}
+	return "[" + strings.Join(out, ", ") + "]"
+}
+
+// canonical rendering of a received header set: per name, values in order for Impersonate-Group (a list the code
+// keeps in order), sorted otherwise (filled from Go maps)
+func canonRecv(ls []Line) string {
+	m := map[string][]string{}
+	for _, l := range ls {
+		m[l.N] = append(m[l.N], l.V)
+	}
+	names := make([]string, 0, len(m))
+	for n := range m {
+		names = append(names, n)
+	}
+	sort.Strings(names)
+	var b strings.Builder
+	for _, n := range names {
+		vs := m[n]
+		if rig.UnHex(n) != "Impersonate-Group" {
+			sort.Strings(vs)
+		}
+		fmt.Fprintf(&b, "%s=%s;", n, strings.Join(vs, ","))
+	}
+	return b.String()
+}
+
+func canonCalls(ds []Deny) string {
+	var l []string
+	for _, d := range ds {
+		l = append(l, d.Res+"/"+d.Sub+"/"+d.Ns+"/"+d.Name)
+	}
+	sort.Strings(l)
+	return strings.Join(l, ";")
+}
+
+var gw *gateway
+
+// known limitations of the wire format, recorded in known_findings.txt: report one (shrunk) witness per run
+var knownClass = map[string]bool{"c02.extra-key-case": true, "c02.value-not-carried": true}
+
+type verdict struct {
+	ok      bool
+	kind    string
+	class   string
+	what    string
+	impl    interface{}
+	model   interface{}
+	classes []string
+}
+
+// eval runs one case on the real gateway and on the model.
+func eval(c *rig.Ctx, cs Case) (verdict, Observed, modelOut) {
+	cs.Observed = nil
+	deny := map[AuthzCall]string{}
+	for _, d := range cs.Deny {
+		deny[AuthzCall{Res: d.Res, Sub: rig.UnHex(d.Sub), Ns: rig.UnHex(d.Ns), Name: rig.UnHex(d.Name)}] = d.D
+	}
+	lines := make([]string, len(cs.Client))
+	for i, l := range cs.Client {
+		lines[i] = rig.UnHex(l.N) + ": " + rig.UnHex(l.V)
+	}
+	var obs Observed
+	msg, panicked := rig.Recover(func() { obs = gw.send(cs.User.info(), deny, lines, cs.Upgrade) })
+	if panicked {
+		return verdict{kind: "diff", class: "c02.harness-panic", what: "harness panicked: " + msg}, obs, modelOut{}
+	}
+	if obs.Err != "" {
+		return verdict{kind: "diff", class: "c02.io", what: "request failed: " + obs.Err}, obs, modelOut{}
+	}
+	ow := &ObsWire{Upstream: [][]Line{}}
+	for _, req := range obs.Upstream {
+		ls := []Line{}
+		for _, hv := range req {
+			ls = append(ls, Line{rig.Hex(hv.N), rig.Hex(hv.V)})
+		}
+		ow.Upstream = append(ow.Upstream, ls)
+	}
+	withObs := cs
+	withObs.Observed = ow
+	var m modelOut
+	if err := c.Model("C02.run", withObs, &m); err != nil {
+		return verdict{kind: "diff", class: "c02.model-error", what: "model error: " + err.Error()}, obs, m
+	}
+	// 1. the judge (Lean) on what the upstream really received
+	var bad []string
+	for _, cl := range m.JudgeImpl {
+		bad = append(bad, cl)
+	}
+	if len(bad) > 0 {
+		got := "nothing"
+		if len(ow.Upstream) > 0 {
+			got = readableLines(ow.Upstream[0])
+		}
+		want := fmt.Sprintf("answered by the gateway with %d and not forwarded", m.Expect.Status)
+		if m.Expect.Kind == "forward" {
+			want = "forwarded as exactly " + m.Expect.ID.readable()
+		}
+		return verdict{kind: "judge", class: bad[0], classes: bad, impl: obs, model: m.Expect,
+			what: fmt.Sprintf("%s: %s; must be %s; gateway answered %d, upstream received %s", strings.Join(bad, "+"), cs.readable(), want, obs.Status, got)}, obs, m
+	}
+	// 2. the model's own output must satisfy the judge (it is a theorem)
+	if len(m.JudgeModel) > 0 {
+		return verdict{kind: "diff", class: "c02.model-judge", what: fmt.Sprintf("the judge rejects the model's own output (%v) on %s", m.JudgeModel, cs.readable()), model: m}, obs, m
+	}
+	// 3. correspondence
+	wantStatus := map[string]int{"badRequest": 400, "unauthorized": 401, "internalError": 500, "forbidden": 403, "transportRefused": 502, "upstreamRefused": 400, "forwarded": 200}[m.Outcome]
+	if m.Outcome == "forwarded" && cs.Upgrade {
+		wantStatus = 403 // what the stub upstream answers to an upgrade
+	}
+	nUp := 0
+	if m.Outcome == "forwarded" {
+		nUp = 1
+	}
+	if obs.Status != wantStatus || len(obs.Upstream) != nUp {
+		return verdict{kind: "diff", class: "c02.outcome", impl: obs, model: m,
+			what: fmt.Sprintf("model says %s (status %d, %d upstream request), gateway answered %d with %d upstream request(s); %s", m.Outcome, wantStatus, nUp, obs.Status, len(obs.Upstream), cs.readable())}, obs, m
+	}
+	if m.Outcome == "forwarded" && canonRecv(m.Recv) != canonRecv(ow.Upstream[0]) {
+		return verdict{kind: "diff", class: "c02.received-headers", impl: obs, model: m,
+			what: fmt.Sprintf("upstream received %s, model predicts %s; %s", readableLines(ow.Upstream[0]), readableLines(m.Recv), cs.readable())}, obs, m
+	}
+	implCalls := []Deny{}
+	for _, a := range obs.Calls {
+		implCalls = append(implCalls, Deny{Res: a.Res, Sub: rig.Hex(a.Sub), Ns: rig.Hex(a.Ns), Name: rig.Hex(a.Name)})
+	}
+	switch m.Outcome {
+	case "forwarded", "transportRefused", "upstreamRefused":
+		if canonCalls(implCalls) != canonCalls(m.Calls) {
+			return verdict{kind: "diff", class: "c02.authorizer-calls", impl: obs, model: m,
+				what: fmt.Sprintf("authorizer was asked %s, model derives %s; %s", canonCalls(implCalls), canonCalls(m.Calls), cs.readable())}, obs, m
+		}
+	case "forbidden":
+		// the loop stops at the first refusal: the calls made are among the derived ones and the last one was refused
+		all := map[string]int{}
+		for _, d := range m.Calls {
+			all[canonCalls([]Deny{d})]++
+		}
+		okc := len(implCalls) > 0
+		for _, d := range implCalls {
+			k := canonCalls([]Deny{d})
+			if all[k] == 0 {
+				okc = false
+			}
+			all[k]--
+		}
+		if okc {
+			last := obs.Calls[len(obs.Calls)-1]
+			if _, refused := deny[last]; !refused {
+				okc = false
+			}
+		}
+		if !okc {
+			return verdict{kind: "diff", class: "c02.authorizer-calls", impl: obs, model: m,
+				what: fmt.Sprintf("403 after asking %s, model derives %s; %s", canonCalls(implCalls), canonCalls(m.Calls), cs.readable())}, obs, m
+		}
+	default:
+		if len(implCalls) != 0 {
+			return verdict{kind: "diff", class: "c02.authorizer-calls", impl: obs, model: m, what: "authorizer asked although the request is answered before the impersonation filter; " + cs.readable()}, obs, m
+		}
+	}
+	return verdict{ok: true}, obs, m
+}
+
+// sameFailure: a shrunk candidate still fails in the same way
+func sameFailure(a, b verdict) bool {
+	return !b.ok && a.kind == b.kind && a.class == b.class && strings.Join(a.classes, "+") == strings.Join(b.classes, "+")
+}
+
+func allKnown(classes []string) bool {
+	for _, cl := range classes {
+		if !knownClass[cl] {
+			return false
+		}
+	}
+	return len(classes) > 0
+}
+
+func shrink(c *rig.Ctx, cs Case, v verdict) Case {
+	fails := func(x Case) bool { w, _, _ := eval(c, x); return sameFailure(v, w) }
+	cs.Client = rig.ShrinkList(cs.Client, func(l []Line) bool { x := cs; x.Client = l; return fails(x) })
+	cs.Deny = rig.ShrinkList(cs.Deny, func(l []Deny) bool { x := cs; x.Deny = l; return fails(x) })
+	if cs.User != nil {
+		u := *cs.User
+		u.Groups = rig.ShrinkList(u.Groups, func(l []string) bool { x := cs; y := u; y.Groups = l; x.User = &y; return fails(x) })
+		u.Extra = rig.ShrinkList(u.Extra, func(l []Extra) bool { x := cs; y := u; y.Extra = l; x.User = &y; return fails(x) })
+		for i := range u.Extra {
+			i := i
+			vs := rig.ShrinkList(u.Extra[i].V, func(l []string) bool {
+				if len(l) == 0 {
+					return false
+				}
+				x := cs
+				y := u
+				y.Extra = append([]Extra{}, u.Extra...)
+				y.Extra[i] = Extra{K: u.Extra[i].K, V: l}
+				x.User = &y
+				return fails(x)
+			})
+			u.Extra[i] = Extra{K: u.Extra[i].K, V: vs}
+		}
+		// simplify the name
+		for _, n := range []string{"alice", "u"} {
+			x := cs
+			y := u
+			y.Name = rig.Hex(n)
+			x.User = &y
+			if fails(x) {
+				u = y
+				break
+			}
+		}
+		cs.User = &u
+	}
+	if cs.Upgrade {
+		x := cs
+		x.Upgrade = false
+		if fails(x) {
+			cs = x
+		}
+	}
+	return cs
+}
+
+var reported = map[string]bool{}
+
+// runCase evaluates, counts and (on failure) shrinks and records one case.
+func runCase(c *rig.Ctx, cs Case, origin string) bool {
+	if cs.Token == "" {
+		cs.Token = rig.Hex(gatewayToken)
+	}
+	if cs.Client == nil {
+		cs.Client = []Line{}
+	}
+	if cs.Deny == nil {
+		cs.Deny = []Deny{}
+	}
+	v, obs, m := eval(c, cs)
+	c.Trace()
+	nontrivial := false
+	for _, l := range cs.Client {
+		if isIdentityHeader(rig.UnHex(l.N)) {
+			nontrivial = true
+		}
+	}
+	if cs.User != nil && len(cs.User.Extra) > 0 {
+		nontrivial = true
+	}
+	bucket := origin + ":" + m.Outcome
+	if m.Outcome == "" {
+		bucket = origin + ":error"
+	}
+	if m.ImpRequested {
+		bucket += ":impersonation"
+	}
+	if cs.Upgrade {
+		bucket += ":upgrade"
+	}
+	if m.Expect.Kind == "forward" && (!m.Expect.KeysLower || !m.Expect.Carried) {
+		bucket += ":wire-cannot-carry"
+	}
+	c.Case(rig.Canon(cs), nontrivial, bucket, func() interface{} {
+		return map[string]interface{}{"case": cs.readable(), "gateway_status": obs.Status, "upstream_received": obs.Upstream}
+	})
+	c.Count(fmt.Sprintf("client-lines=%d", len(cs.Client)))
+	if v.ok {
+		return true
+	}
+	if v.kind == "judge" && allKnown(v.classes) {
+		// a recorded limitation of the wire format: one shrunk witness per run is enough
+		key := strings.Join(v.classes, "+")
+		c.Count("known:" + key)
+		if reported[key] {
+			return true
+		}
+		reported[key] = true
+	}
+	small := shrink(c, cs, v)
+	w, _, _ := eval(c, small)
+	if !sameFailure(v, w) {
+		small, w = cs, v
+	}
+	c.Fail(rig.Failure{Kind: w.kind, Class: w.class, What: w.what, Case: small, Impl: w.impl, Model: w.model})
+	return false
+}
 
 func main() {
 	fs := flag.NewFlagSet("klog", flag.ContinueOnError)
 	klog.InitFlags(fs)
 	fs.Set("logtostderr", "false")
 	fs.Set("alsologtostderr", "false")
+	fs.Set("stderrthreshold", "FATAL")
 	klog.SetOutput(io.Discard)
-	g, err := newGateway()
-	if err != nil {
-		panic(err)
-	}
-	defer g.close()
-	u := &user.DefaultInfo{Name: "alice", Groups: []string{"dev", " edge "}, Extra: map[string][]string{"Scopes": {"a", "b"}, "x/y%": {"1"}, "é": {"2"}}}
-	show := func(name string, o Observed) { fmt.Printf("%-30s %+v\n", name, o) }
-	show("plain", g.send(u, nil, []string{"Authorization: Bearer client"}, false))
-	show("uid", g.send(u, nil, []string{"authorization: Bearer client", "impersonate-uid: 0", "IMPERSONATE-FOO: x"}, false))
-	show("imp", g.send(u, nil, []string{"Impersonate-User: bob", "impersonate-group: g1", "Impersonate-Group: ", "Impersonate-Extra-Sc%2fopes: v", "Impersonate-Uid: 7"}, false))
-	show("imp-deny", g.send(u, map[AuthzCall]string{{Res: "groups", Name: "g1"}: "deny"}, []string{"Impersonate-User: bob", "impersonate-group: g1"}, false))
-	show("imp-malformed", g.send(u, nil, []string{"impersonate-group: g1"}, false))
-	show("imp-sa", g.send(u, nil, []string{"Impersonate-User: system:serviceaccount:ns1:sa1"}, false))
-	show("bad name", g.send(u, nil, []string{"Imperso nate-User: bob"}, false))
-	show("bad value", g.send(u, nil, []string{"Impersonate-User: b\x01ob"}, false))
-	show("empty user 2nd", g.send(u, nil, []string{"Impersonate-User: ", "Impersonate-User: bob"}, false))
-	u2 := &user.DefaultInfo{Name: "al\nice"}
-	show("refused", g.send(u2, nil, nil, false))
-	u3 := &user.DefaultInfo{Name: " alice\t", Groups: []string{""}}
-	show("trim", g.send(u3, nil, nil, false))
-	show("upgrade", g.send(u, nil, []string{"Authorization: Bearer client", "impersonate-uid: 0"}, true))
-	show("after", g.send(u, nil, nil, false))
-	show("unauth", g.send(nil, nil, []string{"Authorization: Bearer client", "impersonate-uid: 0"}, false))
+	rig.Main("C02", func(c *rig.Ctx) {
+		c.SetRule("one raw HTTP/1.1 request through the real gateway chain + dispatcher + transport to a recording upstream: authenticated identity (name / 0-4 groups / 0-3 extra keys x 0-3 values over pools with '%', space, upper case, UTF-8, ':', edge white space, control bytes), 0-7 client header lines from the families Authorization, Impersonate-User|Group|Extra-*|Uid|Foo and near misses in random casings with empty values and duplicates, an authorizer script (all allowed / one or two derived requests denied, no-opinion or error), plain or upgrade path; distinct = distinct canonical case; non-trivial = the client sent at least one identity bearing header or the identity has extras")
+		var err error
+		gw, err = newGateway()
+		if err != nil {
+			fmt.Fprintln(os.Stderr, "cannot start the in-process gateway:", err)
+			os.Exit(2)
+		}
+		defer gw.close()
+		if c.Replay != "" {
+			var cs Case
+			if err := c.LoadReplay(&cs); err != nil {
+				fmt.Fprintln(os.Stderr, err)
+				os.Exit(2)
+			}
+			runCase(c, cs, "replay")
+			return
+		}
+		files, _ := filepath.Glob(filepath.Join(os.Getenv("VERIF_DIR"), "harness", "corpus", "C02", "*.json"))
+		sort.Strings(files)
+		for _, f := range files {
+			b, _ := os.ReadFile(f)
+			var env struct{ Case *Case }
+			if json.Unmarshal(b, &env) != nil || env.Case == nil {
+				fmt.Fprintln(os.Stderr, "bad corpus file", f)
+				os.Exit(2)
+			}
+			runCase(c, *env.Case, "corpus")
+		}
+		escapeSweep(c)
+		n := c.Budget(4000, 80000)
+		for i := 0; i < n && c.NFailures() < 6; i++ {
+			runCase(c, genCase(c, i), "gen")
+		}
+	})
 }
